@@ -215,6 +215,22 @@ def _rewrite(prop, case, f):
     return f.get("kind", "").startswith(("dataset_unreadable_after_rejection", "content_changed_after_rejection", "existing_part_file_unreadable_after_rejection"))
 
 
+@pred("refused-append-to-bare-directory-leaves-part-files")
+def _bare_dir(prop, case, f):
+    # a dataset without _metadata is what its directory holds: the part files a late-refused append has already created (the last one
+    # truncated) stay there and break the next open
+    import re
+    if prop != "C18" or not case.get("no_summary") or f.get("mode") != "append":
+        return False
+    opened = f.get("opened_for_writing") or []
+    if not opened or any(not re.search(r"(^|/)part\.\d+\.parquet$", p_) for p_ in opened):
+        return False      # (only NEW part files were opened: an existing file opened for writing is another matter)
+    late = {("append_unencodable_value", "writer.py:convert"), ("none_in_required", "writer.py:convert"), ("unknown_codec", "compression.py:compress_data")}
+    if (f.get("rejection"), f.get("raised_where")) not in late:
+        return False
+    return f.get("kind") == "dataset_unreadable_after_rejection" and f.get("where") == "util.py:metadata_from_many"
+
+
 @pred("foreign-v2-dictionary-column-read-as-category")
 def _v2_cat(prop, case, f):
     # read_data_page_v2, branch "use_cat and dictionary": a run header is skipped as if the page had fastparquet's own layout
